@@ -14,18 +14,21 @@ def run(prop, path):
         if fam == "tier":
             from . import tier as T
             vec = {"op": ev["op"], "args": ev["args"], "pre": ev["pre"], "arg": ev["arg"]}
-            new, _ = T.run_vector(vec, T.EMBS[ev.get("emb", "dy")], T.POOLS[ev.get("pool", "ascii")], 0)
+            new, _ = T.run_vector(vec, T.EMBS[ev.get("emb", "dy")], T.POOLS[ev.get("pool", "ascii")], ev.get("variant", 0))
+            new["id"] = 0
             verdicts, _, _ = common.validate_traces("Trace_Tier", [new], work)
         elif fam == "tg":
             from . import tier as T, tg as G
             vec = {"op": ev["op"], "args": ev["args"], "pre": ev["pre"], "argt": ev["argt"], "argtg": ev["argtg"]}
-            new, _ = G.run_vector(vec, T.EMBS[ev.get("emb", "dy")], T.POOLS[ev.get("pool", "ascii")], 0)
+            new, _ = G.run_vector(vec, T.EMBS[ev.get("emb", "dy")], T.POOLS[ev.get("pool", "ascii")], ev.get("variant", 0))
+            new["id"] = 0
             verdicts, _, _ = common.validate_traces("Trace_Tg", [new], work)
             new.setdefault("arg", new.get("argt"))
         else:
             # the replay file holds the complete recorded call (inputs, observed outputs): TLC judges that record again
             mod = {"query": "Trace_Tier", "file": "Trace_File", "audio": "Trace_Audio", "zc": "Trace_Audio", "klatt": "Trace_Klatt",
-                   "series": "Trace_Klatt"}.get(fam)
+                   "series": "Trace_SeriesExt" if ev.get("op") == "zwindow" else "Trace_Klatt", "scripts": "Trace_Scripts",
+                   "findall": "Trace_FindAll"}.get(fam)
             if mod is None:
                 print("unknown event family", fam)
                 return 2
